@@ -344,11 +344,14 @@ def faceFlux (ps : PhaseSt α) (x : List α) : Nat → α :=
 
 def nucIdxOf (ps : PhaseSt α) (rnuc : α) : Nat := PBM.nucIndex ps.grid.bins (fn ps.grid.bounds) rnuc
 
-/-- the Euler update of one phase with the corrected fluxes: `x + dXdt*dt` -/
-def advancePh (ps : PhaseSt α) (x : List α) (yp : PSlice α) (dt : α) : List α :=
-  let nf := PBM.correctedFlux ps.grid.bins dt (fn x) (faceFlux ps x)
+/-- `X_old + correctdXdt(...)*dt` for one phase, as `DESolver._updateX` computes it for a KWN model:
+the face fluxes are those of the LAST `getdXdtEuler` call (growth field of the state, distribution `xFlux` it was
+called with), the limiter compares against `xLimit` = `solver._X0[p]`, which is the stored distribution, and the
+result is added to `xBase`, the iterator's own (processed) copy of the old state -/
+def advanceStage (ps : PhaseSt α) (xFlux xLimit xBase : List α) (yp : PSlice α) (dt : α) : List α :=
+  let nf := PBM.correctedFlux ps.grid.bins dt (fn xLimit) (faceFlux ps xFlux)
   let k := nucIdxOf ps yp.Rnuc
-  (List.range x.length).map (fun i => fn x i + PBM.dXdt nf k yp.nucRate i * dt)
+  (List.range xBase.length).map (fun i => fn xBase i + PBM.dXdt nf k yp.nucRate i * dt)
 
 def stepIn (c : Cfg α) (s : St α) (tf : α) : DtRules.StepIn α :=
   { n := s.n, tPrev := (s.prev c.nElem).time, tCur := (s.cur c.nElem).time, finalTime := tf,
@@ -424,16 +427,13 @@ structure StepOut (α : Type) where
   xNew : List (List α)      -- the state handed to postProcess (before `_processX`)
   st : St α
 
-/-- the entry state as `getdXdt` leaves it: `_processX(x)` acts on the arrays of `getCurrentX()`, which ARE the PBM
-distributions, so the stored distributions are the processed ones from here on -/
+/-- the iterator's copy of the old state after `_processX` (the solver hands `getdXdt` views of a FLAT COPY of the
+state, so the stored distributions themselves are not touched) -/
 def entryX (c : Cfg α) (s : St α) : List (List α) := processAll c s (s.ph.map (fun ps => ps.grid.psd))
 
-def aliasSt (c : Cfg α) (s : St α) : St α :=
-  { s with ph := List.zipWith (fun ps xp => { ps with grid := { ps.grid with psd := xp } }) s.ph (entryX c s) }
-
-/-- what `getDt` proposes -/
+/-- what `getDt` proposes (it reads the stored distributions, growth field, dissolution indices and the two newest rows) -/
 def proposedDt (c : Cfg α) (s : St α) (tf : α) : α :=
-  DtRules.getDt c.dt (stepIn c (aliasSt c s) tf) (dtPhases c (aliasSt c s) (entryX c s))
+  DtRules.getDt c.dt (stepIn c s tf) (dtPhases c s (entryX c s))
 
 /-- `solver._dtmax` after `if self._dtmax > tf - currTime: self._dtmax = tf - currTime` -/
 def dtmaxNow (c : Cfg α) (s : St α) (tf dtmaxS : α) : α :=
@@ -443,19 +443,23 @@ def dtmaxNow (c : Cfg α) (s : St α) (tf dtmaxS : α) : α :=
 def acceptedDt (c : Cfg α) (s : St α) (tf dtminS dtmaxS : α) : α :=
   Solver.clampDt dtminS (dtmaxNow c s tf dtmaxS) (Solver.Dt.fin (proposedDt c s tf))
 
-/-- `X0 + correctdXdt(...)*dt` for every phase, with the nucleation terms of the last recorded row -/
-def advanced (c : Cfg α) (s : St α) (dt : α) : List (List α) :=
-  (zip3 (aliasSt c s).ph (entryX c s) (s.cur c.nElem).ph).map (fun u => advancePh u.1 u.2.1 u.2.2 dt)
+/-- `_updateX` for every phase: fluxes from the state `sF` (its growth field) and the distributions `xFlux`, nucleation
+terms of the slice `y`, limiter against the stored distributions of `s`, added to the processed old state -/
+def stageX (c : Cfg α) (s sF : St α) (xFlux : List (List α)) (y : Slice α) (dt : α) : List (List α) :=
+  (zip3 sF.ph xFlux (zip3 s.ph (entryX c s) y.ph)).map
+    (fun u => advanceStage u.1 u.2.1 u.2.2.1.grid.psd u.2.2.2.1 u.2.2.2.2 dt)
 
-/-- the `_calculateDependentTerms` evaluation inside `postProcess`: state after it and the slice to be appended -/
+/-- Euler: `X0 + correctdXdt(...)*dt` with the growth field and nucleation terms of the entry state -/
+def advanced (c : Cfg α) (s : St α) (dt : α) : List (List α) := stageX c s s (entryX c s) (s.cur c.nElem) dt
+
+/-- the `_calculateDependentTerms` evaluation inside `postProcess` of an Euler step -/
 def evaluated (c : Cfg α) (s : St α) (tf dtminS dtmaxS : α) (aPost : EvalAns α) : St α × Slice α :=
   let dt := acceptedDt c s tf dtminS dtmaxS
-  depEval c (aliasSt c s) ((s.cur c.nElem).time + dt) (processAll c (aliasSt c s) (advanced c s dt)) aPost (s.cur c.nElem)
+  depEval c s ((s.cur c.nElem).time + dt) (processAll c s (advanced c s dt)) aPost (s.cur c.nElem)
 
-/-- state after `_appendArrays` -/
-def appended (c : Cfg α) (s : St α) (tf dtminS dtmaxS : α) (aPost : EvalAns α) : St α :=
-  let e := evaluated c s tf dtminS dtmaxS aPost
-  { e.1 with hist := e.2 :: e.1.hist }
+/-- `_appendArrays`, `_updateParticleSizeDistribution`: what `postProcess` does after its evaluation `e` -/
+def finishStep (c : Cfg α) (e : St α × Slice α) (t' : α) (xP : List (List α)) (upd : List (UpdAns α)) : Option (St α) :=
+  updateAll c t' { e.1 with hist := e.2 :: e.1.hist } 0 xP upd
 
 /-- `preProcess; getdXdt(t, X0) (first evaluation: copy of the last recorded slice); getDt; clamp; correctdXdt;
 X0 + dXdt*dt; currTime += dt; postProcess` — `dtminS`, `dtmaxS` are `solver._dtmin`, `solver._dtmax` on entry. -/
@@ -463,18 +467,70 @@ def eulerStep (c : Cfg α) (s : St α) (tf dtminS dtmaxS : α) (aPost : EvalAns 
     Option (StepOut α) :=
   let dt := acceptedDt c s tf dtminS dtmaxS
   let xNew := advanced c s dt
-  match updateAll c ((s.cur c.nElem).time + dt) (appended c s tf dtminS dtmaxS aPost) 0
-          (processAll c (aliasSt c s) xNew) upd with
+  match finishStep c (evaluated c s tf dtminS dtmaxS aPost) ((s.cur c.nElem).time + dt) (processAll c s xNew) upd with
   | none => none
   | some sD => some { dtProposed := proposedDt c s tf, dt := dt, xNew := xNew, st := sD }
 
+/-! ## the same pass with the Runge-Kutta iterator
+
+`RK4Iterator` calls `getdXdt` four times (the first is the copy of the last recorded slice, the other three are full
+evaluations at t+dt/2, t+dt/2, t+dt on intermediate states), each followed by `_updateX`; for a KWN model `_updateX`
+→ `correctdXdt` RECOMPUTES the derivative from the face fluxes of the latest `getdXdtEuler` call, so every intermediate
+state is `X0 + (corrected flux of that stage)*step`, and the final state is `X0 + (corrected flux of stage 4)*dt` — the
+weighted sum `(k1 + 2k2 + 2k3 + k4)/6` is handed to `_updateX` and replaced there.  The model says what the code does. -/
+
+structure RK4Evals (α : Type) where
+  s2 : St α × Slice α
+  s3 : St α × Slice α
+  s4 : St α × Slice α
+  xNew : List (List α)
+
+def rk4Evals (c : Cfg α) (s : St α) (dt : α) (a2 a3 a4 : EvalAns α) : RK4Evals α :=
+  let cur := s.cur c.nElem
+  let t := cur.time
+  let xk1 := stageX c s s (entryX c s) cur (dt / 2)
+  let xk1P := processAll c s xk1
+  let e2 := depEval c s (t + dt / 2) xk1P a2 cur
+  let xk2 := stageX c s e2.1 xk1P e2.2 (dt / 2)
+  let xk2P := processAll c e2.1 xk2
+  let e3 := depEval c e2.1 (t + dt / 2) xk2P a3 e2.2
+  let xk3 := stageX c s e3.1 xk2P e3.2 dt
+  let xk3P := processAll c e3.1 xk3
+  let e4 := depEval c e3.1 (t + dt) xk3P a4 e3.2
+  { s2 := e2, s3 := e3, s4 := e4, xNew := stageX c s e4.1 xk3P e4.2 dt }
+
+/-- the `_calculateDependentTerms` evaluation inside `postProcess` of a Runge-Kutta step -/
+def rk4Post (c : Cfg α) (s : St α) (tf dtminS dtmaxS : α) (a2 a3 a4 aPost : EvalAns α) : St α × Slice α :=
+  let dt := acceptedDt c s tf dtminS dtmaxS
+  let r := rk4Evals c s dt a2 a3 a4
+  depEval c r.s4.1 ((s.cur c.nElem).time + dt) (processAll c r.s4.1 r.xNew) aPost r.s4.2
+
+def rk4Step (c : Cfg α) (s : St α) (tf dtminS dtmaxS : α) (a2 a3 a4 aPost : EvalAns α) (upd : List (UpdAns α)) :
+    Option (StepOut α) :=
+  let dt := acceptedDt c s tf dtminS dtmaxS
+  let r := rk4Evals c s dt a2 a3 a4
+  match finishStep c (rk4Post c s tf dtminS dtmaxS a2 a3 a4 aPost) ((s.cur c.nElem).time + dt)
+          (processAll c r.s4.1 r.xNew) upd with
+  | none => none
+  | some sD => some { dtProposed := proposedDt c s tf, dt := dt, xNew := r.xNew, st := sD }
+
+/-- the answers one pass of the solver loop consumes, for either built-in iterator -/
+inductive StepAns (α : Type) where
+  | euler (aPost : EvalAns α) (upd : List (UpdAns α))
+  | rk4 (a2 a3 a4 aPost : EvalAns α) (upd : List (UpdAns α))
+
+def anyStep (c : Cfg α) (s : St α) (tf dtminS dtmaxS : α) : StepAns α → Option (StepOut α)
+  | .euler a u => eulerStep c s tf dtminS dtmaxS a u
+  | .rk4 a2 a3 a4 a u => rk4Step c s tf dtminS dtmaxS a2 a3 a4 a u
+
 /-- the loop of `DESolver.solve` for as many passes as there are answer records (the backend is an arbitrary stream of
-answers): `while currTime < tf`, with `solver._dtmax` carried from pass to pass.  `none` where the implementation raises. -/
-def runSteps (c : Cfg α) (tf dtminS : α) : St α → α → List (EvalAns α × List (UpdAns α)) → Option (St α × α)
+answers; the iterator may even change from pass to pass, as it does between `solve` calls): `while currTime < tf`, with
+`solver._dtmax` carried from pass to pass.  `none` where the implementation raises. -/
+def runSteps (c : Cfg α) (tf dtminS : α) : St α → α → List (StepAns α) → Option (St α × α)
   | s, dtmaxS, [] => some (s, dtmaxS)
   | s, dtmaxS, au :: rest =>
     if (s.cur c.nElem).time < tf then
-      match eulerStep c s tf dtminS dtmaxS au.1 au.2 with
+      match anyStep c s tf dtminS dtmaxS au with
       | none => none
       | some o => runSteps c tf dtminS o.st (dtmaxNow c s tf dtmaxS) rest
     else some (s, dtmaxS)
